@@ -67,6 +67,11 @@ RetSnap(t, name, v) ==
     /\ ContentOfName(name) = lin[t].content /\ v = lin[t].version
     /\ open' = Drop(open, t) /\ lin' = Drop(lin, t) /\ UNCHANGED <<cur, vers>>
 
+\* the caller edits, in place, a candidate object it passed to an earlier apply: that is the
+\* caller's own data; the published configuration is a complete accepted candidate and is
+\* not touched by it (the observations that follow must still see cur)
+CallerEdit == UNCHANGED hvars
+
 \* with no call in progress: configuration, version and routing are those of cur
 Observe(name, v, routes) == /\ open = <<>>
                             /\ ContentOfName(name) = cur /\ v = VerOf(cur) /\ routes = cur.r
